@@ -169,11 +169,15 @@ def indexClauses (n : Nat) (rels : List (List Int)) (tables : List Tab) (j : Nat
     | some c => [(s!"index-{j}-count-equals-literature", mine.length == c)]
     | none => []
 
-def clauses (n : Nat) (rels : List (List Int)) (k : Nat) (tables : List Tab) : List (String × Bool) :=
+/-- the oracle-free clauses: every table complete, inverse-consistent, transitive, every
+    relator closing at every row (`validTable`), at most `k` rows, pairwise inequivalent -/
+def basicClauses (n : Nat) (rels : List (List Int)) (k : Nat) (tables : List Tab) : List (String × Bool) :=
   let forms := tables.filterMap (canonicalForm · n)
   [("each-table-valid-transitive-relators-close", tables.all fun t => validTable t n rels []),
    ("at-most-k-rows", tables.all fun t => decide (t.size ≤ k)),
-   ("pairwise-inequivalent", forms.length == tables.length && forms.eraseDups.length == forms.length)] ++
-  ((List.range k).flatMap fun i => indexClauses n rels tables (i + 1))
+   ("pairwise-inequivalent", forms.length == tables.length && forms.eraseDups.length == forms.length)]
+
+def clauses (n : Nat) (rels : List (List Int)) (k : Nat) (tables : List Tab) : List (String × Bool) :=
+  basicClauses n rels k tables ++ ((List.range k).flatMap fun i => indexClauses n rels tables (i + 1))
 
 end DSymVerif.SpecC12
